@@ -3049,7 +3049,8 @@ class Set(Collection):
         reverse = attr.reverse
         if reverse.is_collection and reverse.entity._subclasses_:
             # items of a many-to-many collection are created from their primary keys alone: load them to learn their real classes
-            reverse.entity._load_many_(setdata)
+            cache = obj._session_cache_
+            if cache is not None and cache.is_alive: reverse.entity._load_many_(setdata)
         if not reverse.is_collection and reverse.pk_offset is None:
             added = setdata.added or ()
             for item in setdata:
